@@ -50,6 +50,10 @@ def run(ctx):
     ctx.rule("R10.7", "LOSSLESS-TYPE: the parenthesised exact form of a float/double is read back with the type of the decimal form (same type suffix in the printed text, or the scanner pins the type on the second pass)")
     ctx.rule("R10.8", "PREV-ORIGINAL: both list printers hand rtosc_print_arg_val, as the value preceding a range, an element of the caller's original argument list - never the range-conversion scratch buffer (the readers infer a range's step from the original left neighbour)")
     ctx.rule("R10.4", "TAG-FIELD: inside the case of tag X only the union member of X is accessed (printer, scanner's numeric switch, arg-val-math.c)")
+    ctx.rule("R10.9", "DATE-EXTENT: over probe texts (a date with every optional part, the exact fraction in the printer's own spelling and in the 0x...p-32 spelling, alone or followed by another value) the scanner's time-tag branch consumes exactly what the checker's accepts and reads no local it has not assigned")
+    from ..rules import datescan as DS
+    n_date = DS.obligations(ctx, u, "R10.9")
+    ctx.require(n_date >= 60, "R10.9: only %d date probes evaluated" % n_date)
     pr = u.function("as_escaped_char")
     sc = u.function("get_escaped_char")
     ev = FD.Eval()
